@@ -246,6 +246,22 @@ def worker(rec, shard, nshards, setups, lits, seed):
                 if ("UNITS_MISSING", 10) not in codes or any(c in ("UNITS_INVALID", "VALUE_INVALID") for c, _ in codes):
                     rec.violation("C11:bare-number-not-only-missing-unit-warning", schema=st.label, text=text, codes=codes)
                 rec.outcome("bare")
+            # texts that Python's float() reads and the numeric class does not: not numbers, whatever unit follows
+            vcs = as_list(tag.value_child.attrs.get("valueClass"))
+            first_unit = next((u.name for u, uc in st.orc.units_of(tag) if "unitPrefix" not in u.attrs and " " not in u.name), None)
+            if vcs == ["numericClass"] and first_unit:
+                for bad_lit in ("nan", "inf", "-inf", "Infinity", "1_000", "0x10", "1e", "--3"):
+                    text = f"{tag.name}/{bad_lit} {first_unit}"
+                    rec.n("evaluations")
+                    rec.n("distinct_nontrivial")
+                    try:
+                        sev = [(i["code"], i["severity"]) for i in st.validator.validate(HedString(text, st.schema), False)]
+                    except Exception as e:
+                        rec.violation("C11:validate-raises:" + type(e).__name__, schema=st.label, text=text, error=repr(e)[:200])
+                        continue
+                    if not any(v == ERR for c, v in sev):
+                        rec.violation("C11:not-a-number-accepted-before-a-unit", schema=st.label, text=text, codes=sev)
+                    rec.outcome("bad-literal")
             # a word between the number and a declared unit: no reading (number, blank, unit) exists -> rejected
             plain_units = [u.name for u, uc in st.orc.units_of(tag) if "unitPrefix" not in u.attrs and " " not in u.name]
             # a unit that is not of the prefix type does not stand before the number
